@@ -1,4 +1,5 @@
 import Invoke.Lemmas.Exit
+import Invoke.Lemmas.RunnerJoined
 /-! # C05 — exit status is reported truthfully and decides return vs. raise; the program's own exit status
 
 Property theorems only (helpers: `Invoke/Lemmas/Exit.lean`).  All statements are about the model in
@@ -237,5 +238,51 @@ example : (runSync { threadExns := 1, watcherErrs := 2, timeoutSet := true, time
 example : returncodePty (encodeWait (.signaled 11 true)) = some (-11) := by decide
 example : returncodePty (encodeWait (.exited 255)) = some 255 := by decide
 example : programExit exitCodeMap (.exit none true) = some 1 := by decide
+
+/-! ## every join of one run takes the same decision -/
+
+/-- SECOND JOIN: `Promise.join()` may be called again on a run whose first join is over (explicitly, or by leaving
+    `with promise:` after a join): `_finish` is re-entered (`rejoin`: the main thread is back in the wait loop, every
+    flag as the first pass left it).  From EVERY reachable state in which the first join is over, along EVERY schedule
+    of the second pass (timer thread, late environment events and interrupts included), a second join that completes
+    takes the decision of the first: the same return, the same unexpected-exit or timed-out failure with the same exit
+    status, the same worker-exception report.  (In particular a timely run with a timeout is not reported as timed out
+    by its second join: the "disarmed as timely" flag is latched.) -/
+theorem second_join_same_decision (hi ht w p e : Bool) (o er : List Chunk) (ins : List InItem) (ho : Bool) (n : Nat)
+    (asy : Bool) (evs₁ evs₂ : List Ev)
+    (hdone : (run (S.init hi ht w p e o er ins ho false n asy) evs₁).mainPc = .done) :
+    (run (rejoin (run (S.init hi ht w p e o er ins ho false n asy) evs₁)) evs₂).mainPc = .done →
+    (run (rejoin (run (S.init hi ht w p e o er ins ho false n asy) evs₁)) evs₂).outcome =
+      (run (S.init hi ht w p e o er ins ho false n asy) evs₁).outcome := by
+  intro h2
+  have hj := joined_reachable hi ht w p e o er ins ho n asy evs₁ hdone
+  exact (rj_run _ _ evs₂ (rj_rejoin _ hj)).dec (by rw [h2]; rfl)
+
+/-- ... and so does a third, a fourth, ...: `Joined` holds again when the second join is over -/
+theorem later_joins_same_decision (hi ht w p e : Bool) (o er : List Chunk) (ins : List InItem) (ho : Bool) (n : Nat)
+    (asy : Bool) (evs₁ evs₂ evs₃ : List Ev)
+    (hdone : (run (S.init hi ht w p e o er ins ho false n asy) evs₁).mainPc = .done)
+    (h2 : (run (rejoin (run (S.init hi ht w p e o er ins ho false n asy) evs₁)) evs₂).mainPc = .done) :
+    (run (rejoin (run (rejoin (run (S.init hi ht w p e o er ins ho false n asy) evs₁)) evs₂)) evs₃).mainPc = .done →
+    (run (rejoin (run (rejoin (run (S.init hi ht w p e o er ins ho false n asy) evs₁)) evs₂)) evs₃).outcome =
+      (run (S.init hi ht w p e o er ins ho false n asy) evs₁).outcome := by
+  intro h3
+  have hj := joined_reachable hi ht w p e o er ins ho n asy evs₁ hdone
+  have r2 := rj_run _ _ evs₂ (rj_rejoin _ hj)
+  -- after the second join the invariant still holds for the first decision; re-entering keeps it
+  have r2' : RJ (run (S.init hi ht w p e o er ins ho false n asy) evs₁).outcome
+      (rejoin (run (rejoin (run (S.init hi ht w p e o er ins ho false n asy) evs₁)) evs₂)) :=
+    ⟨r2.dead, r2.live, fun hc => by simp [rejoin, decided] at hc, fun hc => by simp [rejoin] at hc⟩
+  exact (rj_run _ _ evs₃ r2').dec (by rw [h3]; rfl)
+
+/-- the hypotheses are met by a concrete run: a command with a timeout exits 3 in time, the first join raises the
+    unexpected-exit failure (timer disarmed as timely); the second pass - with a timer step and an interrupt thrown in -
+    completes with the same failure -/
+example :
+    let evs₁ : List Ev := [.env (.exit 3), .act .out, .act .err] ++ List.replicate 12 (.act .main)
+    let evs₂ : List Ev := [.act .timer, .env .interrupt] ++ List.replicate 14 (.act .main)
+    let s := run (S.init false true false false false [] [] []) evs₁
+    s.mainPc = .done ∧ s.outcome = .unexpected 3 ∧ s.early = true ∧
+    (run (rejoin s) evs₂).mainPc = .done ∧ (run (rejoin s) evs₂).outcome = .unexpected 3 := by decide
 
 end Inv
